@@ -132,9 +132,13 @@ def combos(R, quick):
     for lang in ("c", "cpp", "py"):
         extra.append(dict(lang=lang, gs="as-needed", omit=False, nst=False, ext=None, stem=None, user_templates=True, user_support=False))
         extra.append(dict(lang=lang, gs="always", omit=False, nst=False, ext=None, stem=None, user_templates=False, user_support=True))
+    # a root namespace directory that holds no definition at all (a placeholder in a build tree): support files are all there is to list
+    for lang in ("c", "cpp", "py"):
+        for gs in ("as-needed", "always"):
+            extra.append(dict(lang=lang, gs=gs, omit=False, nst=False, ext=None, stem=None, user_templates=False, user_support=False, root="emptyq"))
     allc = out + extra
     if quick:
-        must = [c for c in allc if c["user_templates"] or c["user_support"]]
+        must = [c for c in allc if c["user_templates"] or c["user_support"] or c.get("root")]
         must += [c for c in out if c["gs"] == "only" and c["omit"] and not c["nst"]]
         must += [c for c in out if c["lang"] in ("py", "html") and not c["nst"] and c["gs"] == "as-needed"]
         rest = [c for c in allc if c not in must]
@@ -144,7 +148,8 @@ def combos(R, quick):
 
 def args_for(c, sb, main, roots, out="outq"):
     a = ["-l", c["lang"], "--experimental-languages", "--allow-unregulated-fixed-port-id", "--generate-support", c["gs"], "-O", out,
-         os.path.join(sb, "in", "dsdl", main)]
+         os.path.join(sb, "in", "dsdl", c.get("root") or main)]
+    os.makedirs(os.path.join(sb, "in", "dsdl", "emptyq"), exist_ok=True)
     for r in roots:
         if r != main:
             a += ["-I", os.path.join(sb, "in", "dsdl", r)]
